@@ -15,6 +15,8 @@ def sizes_for(name, k):
         return SIZES_ONE[:k]
     if name == 'last1':
         return ([3, 4, 5, 6, 2, 3][:k - 1] + [1]) if k >= 2 else [1]
+    if name == 'huge':   # tables of 10^6..10^10 cells: nothing in tree construction may depend on them being small
+        return [2000, 1500, 2500, 1800, 2200, 1700, 1900, 2100, 2300][:k]
     raise ValueError(name)
 
 
